@@ -594,6 +594,8 @@ class KindInference:
             return Obj("Bounds", coeff=lb if isinstance(lb, (Dim, Packed)) else ub)
         if short == "minimize" and "optimize" in d:
             x0 = args[1] if len(args) > 1 else kw.get("x0")
+            if not args and "fun" in kw:
+                args = [kw["fun"]] + list(args)
             bd = kw.get("bounds")
             if isinstance(bd, Obj) and isinstance(bd.coeff, (Dim, Packed)) and isinstance(x0, (Dim, Packed)) and not (bd.coeff == x0):
                 self.report("conflict", fi, e, f"minimisation variables of kind {x0} with bounds of kind {bd.coeff}", f"minimize-bounds|{x0}|{bd.coeff}")
